@@ -118,6 +118,78 @@ func c19schedules(ctx *vc.Ctx) {
 	if ctx.Thorough() {
 		cfgs = append(cfgs, cfg{"3x2/init0", 3, 0}, cfg{"3x2/init4", 3, 4})
 	}
+	explore := func(scn string, ci int, prog [][]c19op, init0 uint64) {
+		var obs [][]c19res
+		var final uint64
+		body := func() {
+			vsched.Branching(false)
+			var c serf.LamportClock
+			for i := uint64(0); i < init0; i++ {
+				c.Increment()
+			}
+			obs = make([][]c19res, len(prog))
+			vsched.Branching(true)
+			var hs []vsched.Handle
+			for ti := range prog {
+				ti := ti
+				hs = append(hs, vsched.Spawn(fmt.Sprintf("t%d", ti), func() {
+					for _, o := range prog[ti] {
+						var v uint64
+						switch o.kind {
+						case 'T':
+							v = uint64(c.Time())
+						case 'I':
+							v = uint64(c.Increment())
+						case 'W':
+							c.Witness(serf.LamportTime(o.arg))
+						}
+						obs[ti] = append(obs[ti], c19res{o, v})
+					}
+				}))
+			}
+			for _, h := range hs {
+				h.Join()
+			}
+			vsched.Branching(false)
+			final = uint64(c.Time())
+		}
+		check := func(x *vsched.Exec) (string, string, string) {
+			if len(x.Panics) > 0 {
+				return "panic", "panic " + x.Panics[0].Frame, x.Panics[0].Value
+			}
+			if !x.RootDone {
+				return "stuck", "deadlock", fmt.Sprintf("blocked: %+v", x.Blocked)
+			}
+			var sb strings.Builder
+			incs := map[uint64]int{}
+			maxlb := init0
+			for ti, rs := range obs {
+				lb, sig, msg := c19checkThread(fmt.Sprintf("t%d%v", ti, prog[ti]), rs, init0, c19max64)
+				if sig != "" {
+					return sig, sig, fmt.Sprintf("program %v init=%d: %s; observations %v", prog, init0, msg, obs)
+				}
+				if lb > maxlb {
+					maxlb = lb
+				}
+				for _, r := range rs {
+					if r.op.kind == 'I' {
+						incs[r.val]++
+						if incs[r.val] > 1 {
+							return "dup-increment", "duplicate-increment", fmt.Sprintf("program %v init=%d: two Increment() calls returned %d; observations %v", prog, init0, r.val, obs)
+						}
+					}
+					fmt.Fprintf(&sb, "%d,", r.val)
+				}
+				sb.WriteByte('|')
+			}
+			if final < maxlb {
+				return "final-low", "final-below-observed", fmt.Sprintf("program %v: final Time()=%d below %d already observed/witnessed", prog, final, maxlb)
+			}
+			return sb.String(), "", ""
+		}
+		// every program combination is its own exploration; statistics are pooled per configuration
+		ctx.Explore(vc.ExploreOpts{Name: fmt.Sprintf("%s#%d", scn, ci), Bound: 1 << 20, FreeSwitches: true, MaxSteps: 2000}, body, check)
+	}
 	for _, cf := range cfgs {
 		al := alpha
 		if cf.threads == 3 {
@@ -143,8 +215,6 @@ func c19schedules(ctx *vc.Ctx) {
 				name = "sched/" + cf.name
 			}
 			_ = name
-			var obs [][]c19res
-			var final uint64
 			var prog [][]c19op
 			for _, pi := range combo {
 				prog = append(prog, progs[pi])
@@ -152,79 +222,26 @@ func c19schedules(ctx *vc.Ctx) {
 			if cf.threads == 2 {
 				prog = append(prog, []c19op{{'T', 0}, {'T', 0}})
 			}
-			body := func() {
-				vsched.Branching(false)
-				var c serf.LamportClock
-				for i := uint64(0); i < cf.init; i++ {
-					c.Increment()
-				}
-				obs = make([][]c19res, len(prog))
-				vsched.Branching(true)
-				var hs []vsched.Handle
-				for ti := range prog {
-					ti := ti
-					hs = append(hs, vsched.Spawn(fmt.Sprintf("t%d", ti), func() {
-						for _, o := range prog[ti] {
-							var v uint64
-							switch o.kind {
-							case 'T':
-								v = uint64(c.Time())
-							case 'I':
-								v = uint64(c.Increment())
-							case 'W':
-								c.Witness(serf.LamportTime(o.arg))
-							}
-							obs[ti] = append(obs[ti], c19res{o, v})
-						}
-					}))
-				}
-				for _, h := range hs {
-					h.Join()
-				}
-				vsched.Branching(false)
-				final = uint64(c.Time())
-			}
-			check := func(x *vsched.Exec) (string, string, string) {
-				if len(x.Panics) > 0 {
-					return "panic", "panic " + x.Panics[0].Frame, x.Panics[0].Value
-				}
-				if !x.RootDone {
-					return "stuck", "deadlock", fmt.Sprintf("blocked: %+v", x.Blocked)
-				}
-				var sb strings.Builder
-				incs := map[uint64]int{}
-				maxlb := cf.init
-				for ti, rs := range obs {
-					lb, sig, msg := c19checkThread(fmt.Sprintf("t%d%v", ti, prog[ti]), rs, cf.init, c19max64)
-					if sig != "" {
-						return sig, sig, fmt.Sprintf("program %v init=%d: %s; observations %v", prog, cf.init, msg, obs)
-					}
-					if lb > maxlb {
-						maxlb = lb
-					}
-					for _, r := range rs {
-						if r.op.kind == 'I' {
-							incs[r.val]++
-							if incs[r.val] > 1 {
-								return "dup-increment", "duplicate-increment", fmt.Sprintf("program %v init=%d: two Increment() calls returned %d; observations %v", prog, cf.init, r.val, obs)
-							}
-						}
-						fmt.Fprintf(&sb, "%d,", r.val)
-					}
-					sb.WriteByte('|')
-				}
-				if final < maxlb {
-					return "final-low", "final-below-observed", fmt.Sprintf("program %v: final Time()=%d below %d already observed/witnessed", prog, final, maxlb)
-				}
-				return sb.String(), "", ""
-			}
-			scn := "sched/" + cf.name
-			// every program combination is its own exploration; statistics are pooled per configuration
-			ctx.Explore(vc.ExploreOpts{Name: fmt.Sprintf("%s#%d", scn, ci), Bound: 1 << 20, FreeSwitches: true, MaxSteps: 2000}, body, check)
+			explore("sched/"+cf.name, ci, prog, cf.init)
 		}
 		// pool per-combination scenarios into one record
 		poolScenarios(ctx, "sched/"+cf.name+"#", "sched/"+cf.name)
 	}
+	// one operation against MANY interfering ones (a retry loop that gives up, or falls back to another
+	// path, after k lost races only shows when k+1 operations of other threads land inside one call)
+	I, T := c19op{'I', 0}, c19op{'T', 0}
+	long := [][][]c19op{
+		{{{'W', 3}}, {I, I, I, I, I, I}},
+		{{{'W', 3}, T}, {{'W', 9}, I, I, I, I}},
+		{{{'W', 3}, I}, {I, I, I, I, I}},
+		{{{'W', 6}}, {I, I, I}, {I, I, I}},
+	}
+	for ci, prog := range long {
+		for _, init0 := range []uint64{0, 3} {
+			explore("sched/one-vs-many", ci*2+int(init0)/3, prog, init0)
+		}
+	}
+	poolScenarios(ctx, "sched/one-vs-many#", "sched/one-vs-many")
 }
 
 // poolScenarios merges all scenarios whose name starts with prefix into one named pooled.
